@@ -590,3 +590,10 @@ _GATE_BRANCH = (
 T("C13", "twin-beacon-gate-guard-at-the-attachment", F, _GATE_BRANCH,
   "            elif setting == BeaconSetting.SETTING_BEACON_GATE:\n                block = BeaconGateBlock.from_beacon_gate_option_strings(value)\n"
   "                if value:\n                    stage.set_config_block(\"beacon_gate\", block)\n")
+# (f) R6: a data transform attached outside the settings loop (it always has its steps / termination children; statements: R10)
+T("C13", "twin-recover-server-block-filled-in-the-epilogue", F, _RECOVER_TAIL,
+  "        if c2_recover:\n            http_get_server = HttpOptionsBlock()\n            http_get_server.set_config_block(\"output\", DataTransformBlock(steps=c2_recover))\n"
+  "            http_get.set_non_empty_config_block(\"server\", http_get_server)\n")
+M("C13", "recover-server-block-filled-in-the-epilogue-unguarded", F, _RECOVER_TAIL,
+  "        http_get_server = HttpOptionsBlock()\n        http_get_server.set_config_block(\"output\", DataTransformBlock(steps=c2_recover))\n"
+  "        http_get.set_non_empty_config_block(\"server\", http_get_server)\n", "C13.R10")
